@@ -158,10 +158,30 @@ func famGet(g *sgen, i int) J {
 				cur["bcc"] = []interface{}{carol, bob}
 			}
 			nt := g.r.pick([]string{"Note", "Create", "Relationship", "Article", "Announce"})
-			child := J{"type": nt, "id": local(fmt.Sprintf("/nest/%d", d)), "content": "c"}
-			if g.r.chance(25) {
+			child := J{"type": nt, "content": "c"}
+			// embedded values mostly carry their own id, sometimes none (anonymous), sometimes one seen before
+			switch g.r.intn(10) {
+			case 0, 1, 2:
+			case 3:
+				child["id"] = local("/nest/0")
+			default:
+				child["id"] = local(fmt.Sprintf("/nest/%d", d))
+			}
+			switch g.r.intn(8) {
+			case 0:
 				cur["object"] = []interface{}{child, remote("/notes/8")}
-			} else {
+			case 1, 2:
+				// an anonymous sibling with hidden recipients of its own, before or after the nested chain
+				sib := J{"type": "Note", "content": "sibling", "bcc": []interface{}{carol}}
+				if g.r.bool() {
+					sib["bto"] = bob
+				}
+				if g.r.bool() {
+					cur["object"] = []interface{}{sib, child}
+				} else {
+					cur["object"] = []interface{}{child, sib}
+				}
+			default:
 				cur["object"] = child
 			}
 			cur = child
@@ -188,13 +208,15 @@ func famGet(g *sgen, i int) J {
 
 func famGate(g *sgen, i int) J {
 	w := g.baseWorld()
-	w["auth"] = []string{"ok", "denied", "error"}[g.r.intn(3)]
-	w["blocked"] = []string{"no", "yes", "error"}[g.r.intn(3)]
+	// the outcome matrix is walked systematically: entry, then authentication answer, then block answer
+	entry := []string{"postInbox", "postOutbox", "getInbox", "getOutbox", "handler"}[i%5]
+	k := i / 5
+	w["auth"] = []string{"ok", "denied", "error"}[k%3]
+	w["blocked"] = []string{"no", "yes", "error"}[(k/3)%3]
 	w["servedInbox"] = g.page(aliceInbox, 3)
 	w["servedOutbox"] = g.page(aliceOutbox, 3)
 	w["fedCallbacks"] = g.cbConfig(inboxTypes)
 	w["socialCallbacks"] = g.cbConfig(outboxTypes)
-	entry := []string{"postInbox", "postOutbox", "getInbox", "getOutbox", "handler"}[i%5]
 	kind := []string{"both", "social", "federating"}[g.r.intn(3)]
 	if entry == "getInbox" && kind == "social" {
 		kind = "federating"
@@ -203,11 +225,12 @@ func famGate(g *sgen, i int) J {
 	if entry == "getInbox" || entry == "getOutbox" || entry == "handler" {
 		method = "GET"
 	}
-	if g.r.chance(20) {
+	if g.r.chance(15) {
 		method = g.r.pick([]string{"GET", "POST", "PUT", "HEAD", "DELETE"})
 	}
+	// mostly well-formed requests, so that the later outcomes (blocked, refused, accepted) are reached
 	var body interface{}
-	switch g.r.intn(6) {
+	switch g.r.intn(10) {
 	case 0:
 		body = J{"__raw": "this is not json"}
 	case 1:
@@ -224,8 +247,18 @@ func famGate(g *sgen, i int) J {
 		}
 	}
 	path := map[string]string{"postInbox": "/users/alice/inbox", "getInbox": "/users/alice/inbox", "postOutbox": "/users/alice/outbox", "getOutbox": "/users/alice/outbox", "handler": "/notes/2"}[entry]
-	return J{"label": "gate-" + entry, "cfg": J{"kind": kind}, "world": w,
-		"steps": []interface{}{step(entry, method, g.header(g.r.chance(70)), path, body)}}
+	ap := g.r.chance(75)
+	st := step(entry, method, g.header(ap), path, body)
+	// the other header (Content-Type on a GET, Accept on a POST) must play no part in the classification
+	if g.r.chance(45) {
+		st["otherHeader"] = g.header(!ap || g.r.bool())
+	}
+	// a Create's recipients are merged through Go maps: the order of its delivery-stage calls is not fixed
+	unordered := false
+	if bm, ok := body.(map[string]interface{}); ok && entry == "postOutbox" {
+		unordered = bm["type"] == "Create"
+	}
+	return J{"label": "gate-" + entry, "unordered": unordered, "cfg": J{"kind": kind}, "world": w, "steps": []interface{}{st}}
 }
 
 // inbox/outbox bodies whose id is absent, null, empty, a number, an object, a relative reference or an absolute IRI
@@ -444,12 +477,23 @@ func famAuthority(g *sgen, i int) J {
 	if _, ok := a["actor"]; !ok || i%4 == 3 {
 		var actors []interface{}
 		pool := []string{bob, remote("/users/bea"), carol}
+		if g.r.chance(35) {
+			// distinct actors whose ids differ only in the query or the fragment
+			pool = [][]string{
+				{remote("/users?u=1"), remote("/users?u=2"), remote("/users?u=3")},
+				{remote("/actors#bob"), remote("/actors#bea"), remote("/actors")},
+				{remote("/users/bob?v=1"), remote("/users/bob"), remote("/users/bob#main")},
+			}[g.r.intn(3)]
+		}
 		for k, n := 0, 1+g.r.intn(3); k < n; k++ {
 			actors = append(actors, g.ref(pool[k], "Person", g.r.chance(40)))
 		}
 		a["actor"] = asList(actors)
+		if g.r.chance(40) {
+			w["blockedIds"] = asList([]interface{}{pool[g.r.intn(len(actors))]})
+		}
 	}
-	if g.r.chance(30) {
+	if _, set := w["blockedIds"]; !set && g.r.chance(30) {
 		w["blockedIds"] = asList([]interface{}{g.r.pick([]string{bob, remote("/users/bea"), carol, fmt.Sprint(a["id"])})})
 	}
 	if _, ok := a["to"]; !ok && g.r.bool() {
